@@ -416,6 +416,8 @@ class Exec:
     def e_DictComp(self, st, e):
         r = self._dispatch('dictcomp', st, e)
         if r is NotImplemented:
+            r = self._dispatch('expr', st, e)
+        if r is NotImplemented:
             raise OutOfSubset('dict comprehension: %s' % ast.unparse(e)[:60])
         return r
 
